@@ -8,7 +8,7 @@ static void run_cmp(const std::vector<std::vector<std::string>> &sec, std::ostre
     std::vector<K> data, queries;
     if (sec.size() > 1) for (auto &t : sec[1]) data.push_back((K) parse_i128(t));
     if (sec.size() > 2) for (auto &t : sec[2]) queries.push_back((K) parse_i128(t));
-    omp_set_num_threads(1);
+    omp_set_num_threads(sec[0].size() > 7 ? std::stoi(sec[0][7]) : 1);
     Index *idx = nullptr;
     try { idx = new Index(data.begin(), data.end()); }
     catch (const std::exception &e) { out << "B throw " << exn_kind(e) << "\n"; return; }
